@@ -68,6 +68,8 @@ def run_cell(cell, rng, rep, layer):
     role = 'client' if e_client else 'server'
     rep.count('grid_judged')
     rep.nontrivial((layer,) + tuple(cell))
+    if len(rep.samples) < 3 and want is not None:
+        rep.sample({'channel': ch, 'role': role, 'setting': i, 'value': v, 'position': pos, 'mandated_code': want})
     w = {'cell': list(cell), 'expected_code': want}
 
     if ch == 'initial':
